@@ -23,7 +23,8 @@ def cases(tier, seed):
         chunk = rng.choice([1, 2, 3, max(1, nnz - 1), nnz, nnz + 1, nnz + 7, max(1, nnz // 2)])
         o = opts(rng.choice(["genome", "cis"]), rng.choice([0, 1, 2]))
         yield "bl.pipeline", {"table": table, "px": px, "o": o, "chunk": chunk, "default_spans": h % 2 == 0,
-                              "map": ["seq", "reversed", "perm", "perm"][h % 4], "seed": h}
+                              "map": ["seq", "reversed", "perm", "perm"][h % 4], "seed": h,
+                              **({"at": "/a/b"} if h % 7 == 3 else {})}
     # (2) full balancing runs under many chunk sizes and map implementations
     big = [gen.binnify([10], 1), gen.binnify([7, 6], 1), gen.binnify([5, 5, 4], 1)]
     for h in range(30 if tier == "quick" else 500):
@@ -44,7 +45,8 @@ def cases(tier, seed):
             runs = runs[:1] + rng.sample(runs[1:], 5)
         if h % 6 == 2:
             runs += [[5, "pool.map"], [4, "pool.imap"], [3, "pool.imap_unordered"]]
-        yield "bl.schedules", {"table": table, "px": px, "o": o, "runs": runs, "seed": h, "workers": 2 + h % 2}
+        yield "bl.schedules", {"table": table, "px": px, "o": o, "runs": runs, "seed": h, "workers": 2 + h % 2,
+                               **({"at": "/resolutions/1000"} if h % 5 == 3 else {})}
 
 
 def run(tier, seed, only_case=None):
